@@ -305,9 +305,14 @@ def main(chk):
             # second pass: add probes of every covered slot (known from the reference's bitmap)
             slots = probe_slots(plan, ref)
             if slots and 'ci' in plan.export_index:
-                extra = ''.join('c 0 %d %s\n' % (plan.fk('ci'), hex(s)) for s in slots) + ''.join('c 1 %d %s\n' % (plan.fk('ci'), hex(s)) for s in slots)
-                script += extra
-                kinds += [('slotprobe', 0)] * len(slots) + [('slotprobe', 1)] * len(slots)
+                extra = ['c 0 %d %s' % (plan.fk('ci'), hex(s)) for s in slots] + ['c 1 %d %s' % (plan.fk('ci'), hex(s)) for s in slots]
+                ekinds = [('slotprobe', 0)] * len(slots) + [('slotprobe', 1)] * len(slots)
+                sl = script.rstrip('\n').split('\n')
+                # both instances are alive only up to the first teardown command
+                at = next((i for i, l in enumerate(sl) if l.startswith('F ')), len(sl))
+                sl[at:at] = extra
+                kinds[at:at] = ekinds
+                script = '\n'.join(sl) + '\n'
                 st, ref, _ = e2e.run_ref(b, plan, script, d)
             kbuilds = list(builds)
             if k % 4 == 0:
